@@ -1277,3 +1277,220 @@ func c16Pool(rc *RuleCtx) {
 		rc.anchor("sync.Pool.Put in package avfs (copy buffer pool)")
 	}
 }
+
+func init() {
+	register(&Rule{ID: "C01.cwd", Floor: 2, Also: []string{"C07", "C11"},
+		Text: "a fresh MemFS / OrefaFS has a working directory: the constructor calls SetCurDir with the root of the default volume (a non-empty constant, or the volume name followed by the separator) - with an empty working directory a relative path is not made absolute, the walk skips its first byte (Mkdir(\"foo\") creates /oo) and Stat(\"\") panics",
+		Run:  c01Cwd})
+}
+
+func c01Cwd(rc *RuleCtx) {
+	for _, pk := range []string{"memfs", "orefafs"} {
+		f := rc.C.fn(pk, "NewWithOptions")
+		cons := pk + ".NewWithOptions sets the working directory"
+		if f == nil {
+			rc.anchor(cons)
+			continue
+		}
+		var set ssa.CallInstruction
+		eachCall(f, func(ci ssa.CallInstruction) {
+			if fn := calleeFunc(ci); fn != nil && fn.Name() == "SetCurDir" {
+				set = ci
+			}
+		})
+		if set == nil {
+			rc.bad(cons, f.Pos(), "the constructor never sets the working directory: it stays the empty string until the first Chdir")
+			continue
+		}
+		args := callArgs(set)
+		var rootLike func(v ssa.Value, d int) bool
+		rootLike = func(v ssa.Value, d int) bool {
+			if d > 5 {
+				return false
+			}
+			v = strip(v)
+			switch x := v.(type) {
+			case *ssa.Const:
+				return x.Value != nil && x.Value.Kind() == constant.String && constant.StringVal(x.Value) != ""
+			case *ssa.BinOp:
+				return x.Op == token.ADD && (isSepCall(x.X) || isSepCall(x.Y) || rootLike(x.X, d+1) || rootLike(x.Y, d+1))
+			case *ssa.Phi:
+				for _, e := range x.Edges {
+					if !rootLike(e, d+1) {
+						return false
+					}
+				}
+				return len(x.Edges) > 0
+			}
+			rs := resolve(v)
+			if len(rs) == 0 || (len(rs) == 1 && rs[0] == v) {
+				return false
+			}
+			for _, rv := range rs {
+				if !rootLike(rv, d+1) {
+					return false
+				}
+			}
+			return true
+		}
+		if len(args) == 1 && rootLike(args[0], 0) {
+			rc.good(cons, set.Pos(), "SetCurDir(root of the default volume)")
+		} else {
+			rc.bad(cons, set.Pos(), "the working directory set by the constructor is not provably a root path")
+		}
+	}
+}
+
+func init() {
+	register(&Rule{ID: "C07.magnitude", Floor: 8, Also: []string{"C02"},
+		Text: "magnitudes chosen by the caller cannot take a call down: (a) a count parameter is compared with what is left before it is added to a cursor that bounds a slice (n = MaxInt must not overflow start+n); (b) an allocation whose size derives from a caller-chosen offset or size (handle offset, WriteAt offset, Truncate size) is made only after that size was compared with an upper limit - otherwise the call panics in the allocator (while holding the node lock, so every later call on the file blocks)",
+		Run:  c07Magnitude})
+}
+
+func c07Magnitude(rc *RuleCtx) {
+	for _, pk := range []string{"memfs", "orefafs"} {
+		for _, f := range rc.C.srcFuncs(pk) {
+			// (a) slice bounds built from `x + param`
+			na := 0
+			eachInstr(f, func(in ssa.Instruction) {
+				sl, ok := in.(*ssa.Slice)
+				if !ok {
+					return
+				}
+				for _, bnd := range []ssa.Value{sl.Low, sl.High} {
+					if bnd == nil {
+						continue
+					}
+					var adds []*ssa.BinOp
+					seen := map[ssa.Value]bool{}
+					var collect func(v ssa.Value, d int)
+					collect = func(v ssa.Value, d int) {
+						if v == nil || d > 6 || seen[v] {
+							return
+						}
+						seen[v] = true
+						switch x := v.(type) {
+						case *ssa.BinOp:
+							if x.Op == token.ADD {
+								adds = append(adds, x)
+							}
+						case *ssa.Phi:
+							for _, e := range x.Edges {
+								collect(e, d+1)
+							}
+						case *ssa.Convert:
+							collect(x.X, d+1)
+						default:
+							for _, rv := range resolve(v) {
+								if rv != v {
+									collect(rv, d+1)
+								}
+							}
+						}
+					}
+					collect(bnd, 0)
+					for _, add := range adds {
+						var p *ssa.Parameter
+						for _, o := range []ssa.Value{add.X, add.Y} {
+							if pp, ok := strip(resolve1(o)).(*ssa.Parameter); ok && isEntryPoint(f) {
+								if b, isB := pp.Type().Underlying().(*types.Basic); isB && b.Info()&types.IsInteger != 0 {
+									p = pp
+								}
+							}
+						}
+						if p == nil {
+							continue
+						}
+						na++
+						cons := fmt.Sprintf("%s cursor + %s bounds a slice", funcName(f), p.Name())
+						bounded := false
+						for _, fa := range factsAt(add.Block()) {
+							c, truth := normCond(fa.Cond, fa.Truth)
+							bo, ok := c.(*ssa.BinOp)
+							if !ok {
+								continue
+							}
+							px := strip(resolve1(bo.X)) == ssa.Value(p)
+							py := strip(resolve1(bo.Y)) == ssa.Value(p)
+							switch {
+							case px && ((bo.Op == token.LSS || bo.Op == token.LEQ) == truth) && (bo.Op == token.LSS || bo.Op == token.LEQ || bo.Op == token.GTR || bo.Op == token.GEQ):
+								// p < X / p <= X holds, or p > X / p >= X fails
+								if bo.Op == token.LSS || bo.Op == token.LEQ {
+									bounded = truth
+								} else {
+									bounded = !truth
+								}
+							case py && (bo.Op == token.GTR || bo.Op == token.GEQ):
+								bounded = truth
+							case py && (bo.Op == token.LSS || bo.Op == token.LEQ):
+								bounded = !truth
+							}
+							if bounded {
+								if _, isC := strip(bo.X).(*ssa.Const); isC && px == false && py {
+									// X is a constant lower bound test such as 0 < p: not an upper bound
+								}
+								break
+							}
+						}
+						if bounded {
+							rc.good(cons, add.Pos(), "the count is compared with an upper bound before it is added")
+						} else {
+							rc.bad(cons, add.Pos(), "the caller's count "+p.Name()+" is added to the cursor before being bounded: with "+p.Name()+" = math.MaxInt the sum overflows to a negative slice bound and the call panics")
+						}
+					}
+				}
+			})
+			// (b) allocations sized by a caller-chosen magnitude
+			eachInstr(f, func(in ssa.Instruction) {
+				var size ssa.Value
+				switch x := in.(type) {
+				case *ssa.MakeSlice:
+					size = x.Len
+				case *ssa.Call:
+					if fn := calleeFunc(x); fn != nil && isPkgFunc(fn, "bytes", "Repeat") && len(x.Call.Args) == 2 {
+						size = x.Call.Args[1]
+					}
+				}
+				if size == nil {
+					return
+				}
+				if _, isC := strip(size).(*ssa.Const); isC {
+					return
+				}
+				s := sym(size)
+				if !(strings.Contains(s, ".at") || strings.Contains(s, "off") || strings.Contains(s, "size")) {
+					return // sized by the data itself (len of an argument or of the content)
+				}
+				// keyed by where the magnitude comes from, not by the expression or by local names
+				from := "a size passed down by the caller"
+				switch {
+				case strings.Contains(s, ".at"):
+					from = "the handle offset"
+				case isEntryPoint(f):
+					for i, pp := range f.Params {
+						if i > 0 && strings.Contains(s, pp.Name()) {
+							from = fmt.Sprintf("argument %d", i)
+						}
+					}
+				}
+				cons := fmt.Sprintf("%s allocation sized by %s", entryOwners(lockAnalysisFor(rc.C))(f), from)
+				limited := false
+				for _, fa := range factsAt(in.Block()) {
+					c, _ := normCond(fa.Cond, fa.Truth)
+					if bo, ok := c.(*ssa.BinOp); ok && (bo.Op == token.GTR || bo.Op == token.GEQ || bo.Op == token.LSS || bo.Op == token.LEQ) {
+						for _, pair := range [][2]ssa.Value{{bo.X, bo.Y}, {bo.Y, bo.X}} {
+							if k, isC := constInt(pair[1]); isC && k > 0 && strings.Contains(sym(pair[0]), strings.TrimSuffix(strings.TrimPrefix(s, "("), ")")) {
+								limited = true
+							}
+						}
+					}
+				}
+				if limited {
+					rc.good(cons, in.Pos(), "the size is compared with an upper limit first")
+				} else {
+					rc.bad(cons, in.Pos(), "the size of this allocation is chosen by the caller (offset or size argument) and is not compared with any limit: a huge value panics in the allocator (makeslice / growslice: len out of range) with the node lock held, after which every call on the file blocks")
+				}
+			})
+		}
+	}
+}
